@@ -31,3 +31,21 @@ class PauseEachStep(plumpy.ProcessListener):
 
     def on_process_running(self, process):
         process.pause()
+
+
+PAUSED_HOOK = [None]  # set by the restart machinery for the duration of a run
+
+
+class CheckpointOnPaused(plumpy.ProcessListener):
+    """Tells the restart machinery that the process reports paused (a point at which deployments write a checkpoint);
+    persisted with the process, so a restored process keeps reporting."""
+
+    def __hash__(self):
+        return 13
+
+    def __eq__(self, other):
+        return type(other) is type(self)
+
+    def on_process_paused(self, process):
+        if PAUSED_HOOK[0] is not None:
+            PAUSED_HOOK[0](process)
